@@ -256,7 +256,51 @@ func (g *qGen) genBucket(w *qWorld) qQuery {
 		q.sql = "SELECT " + strings.Join(items, ", ") + " FROM " + src.sql + " GROUP BY " + strings.Join(keys, ", ")
 		q.coq = fmt.Sprintf("(Q (BSelect %s None (Some %s) None %s false) [] None None)", src.coq, coqList(ckeys), coqList(citems))
 		q.shape = "group-by"
-		if g.r.Intn(4) == 0 {
+		if g.r.Intn(3) == 0 {
+			// HAVING over the aggregates and key columns of the bucket: the model gets the items the condition mentions
+			// and the condition over the row of their values (Model/Query.v filter_groups)
+			var hsql, hcoq string
+			var hitems []string
+			term := func() {
+				ops := [][2]string{{">", "OpGt"}, {">=", "OpGe"}, {"<", "OpLt"}, {"<=", "OpLe"}, {"=", "OpEq"}, {"<>", "OpNe"}}
+				op := ops[g.r.Intn(len(ops))]
+				var it qE
+				kc := -1
+				for i, k := range ckeys {
+					if strings.HasPrefix(k, "(ECol") && g.r.Intn(3) == 0 {
+						kc = i
+					}
+				}
+				if kc >= 0 {
+					it = qE{keys[kc], "SExpr " + ckeys[kc]}
+				} else {
+					it = g.aggItem(cols)
+				}
+				var ts, tc string
+				idx := len(hitems)
+				hitems = append(hitems, it.coq)
+				if g.r.Intn(5) == 0 {
+					ts, tc = it.sql+" IS NULL", fmt.Sprintf("(EIs false (ECol %d) (ELit VNull))", idx)
+				} else {
+					l := g.lit()
+					ts, tc = it.sql+" "+op[0]+" "+l.sql, fmt.Sprintf("(ECmp %s (ECol %d) %s)", op[1], idx, l.coq)
+				}
+				if hsql == "" {
+					hsql, hcoq = ts, tc
+				} else if g.r.Intn(2) == 0 {
+					hsql, hcoq = "("+hsql+") AND ("+ts+")", fmt.Sprintf("(EAnd %s %s)", hcoq, tc)
+				} else {
+					hsql, hcoq = "("+hsql+") OR ("+ts+")", fmt.Sprintf("(EOr %s %s)", hcoq, tc)
+				}
+			}
+			term()
+			if g.r.Intn(3) == 0 {
+				term()
+			}
+			q.sql += " HAVING " + hsql
+			q.coq = fmt.Sprintf("(Q (BSelect %s None (Some %s) (Some (%s, %s)) %s false) [] None None)", src.coq, coqList(ckeys), coqList(hitems), hcoq, coqList(citems))
+			q.shape = "group-by-having"
+		} else if g.r.Intn(4) == 0 {
 			// SELECT DISTINCT over a grouped view: one row per group first, then the duplicates among these rows go -
 			// which matters when not all keys are selected (or a key is an expression that is not selected)
 			var ditems, dcitems []string
